@@ -131,5 +131,21 @@ CLAIMED['C01'] = dict(
     technique="TLA+ iterator-protocol spec + implementation-shaped shared-state models checked by TLC over all interleavings; "
               "TLC-generated schedules and counterexamples replayed on real views; trace validation by TLC",
     design="3/C01")
+CLAIMED['C18'] = dict(
+    text="SortFiles.tla is a reference model of SortView's object graph: the view, its generators, the chunk-file list "
+         "created by a file-path pass and its holders (creating generator, the view's file cache, cache-serving generators "
+         "bound at iter()), clearcache(), view death when neither the user nor an unfinished generator references it, and a "
+         "source that fails while being read. TLC checks NoLeak (all released => no file), ReadersHaveFiles and Complete for "
+         "all histories of iter/next/drop/dropview over (nrows, buffersize, cache, failure point) grids with 2-3 iterators; "
+         "DictsSpill.tla covers the spill file. Histories generated by TLC - with the file count the model predicts after "
+         "every step - are replayed on the real sort() with a private temp dir and gc.collect(): deliveries and 'directory "
+         "empty once everything is released' are property-level, per-step counts model-level (DRIFT). Iterators schedules "
+         "with a view release inserted are replayed on 11 sort-backed views and fromdicts(generator); random histories on "
+         "sort() are validated by SortFilesTrace, which drives SortFiles' own actions.",
+    note="CPython refcounting + gc.collect(), Linux unlink semantics; the driver drops exception references before looking "
+         "at the directory; fromdicts' spill file is observed through tempfile.tempdir.",
+    technique="TLA+ reference/ownership model of temp-file holders checked by TLC; TLC-generated histories with predicted "
+              "file counts replayed on real views; trace validation by TLC",
+    design="3/C18, appendix A")
 
 NOT_APPLICABLE = {}
